@@ -50,6 +50,22 @@ theorem min_len_spec (lens : List Int) :
     (minLen lens = .error .noItems ↔ lens = []) ∧
     ((∃ i, minLen lens = .ok i) ↔ ∃ j, ∃ hj : j < lens.length, 0 < lens[j]) := minLen_spec lens
 
+/-- removing a queue (`Manager.UnregisterItem`, unused by the library but exported by the helper) keeps the
+    selection machinery sound: one item fewer, the cursor is a valid index of what is left (or the manager is
+    empty), every remaining queue keeps its slot except the former last one, which takes the freed slot, and
+    `Len()` drops by exactly the removed queue's length -/
+theorem unregister_keeps_manager_sound (lens : List Int) (rr i : Nat) (h : i < lens.length)
+    (hrr : rr < lens.length ∨ lens = []) :
+    count (unregister lens rr i).1 + 1 = count lens ∧
+    ((unregister lens rr i).2 < (unregister lens rr i).1.length ∨ (unregister lens rr i).1 = []) ∧
+    (∀ j, j < lens.length - 1 →
+      (unregister lens rr i).1[j]? = if j = i then lens[lens.length - 1]? else lens[j]?) ∧
+    total (unregister lens rr i).1 + lens[i] = total lens :=
+  ⟨count_unregister lens rr i h, unregister_cursor lens rr i hrr,
+   fun j hj => unregister_getElem lens rr i j h hj, total_unregister lens rr i h⟩
+
+example : (1 : Nat) < [5, 6, 7, 8].length ∧ unregister [5, 6, 7, 8] 2 1 = ([5, 8, 7], 0) := by decide
+
 /-- every bind path of the current tree registers its queue exactly once (regenerated call graph) -/
 theorem registered_once : Generated.registerCalls.all (fun p => p.2 == 1) = true := Tie.register_once
 
